@@ -265,7 +265,8 @@ class Model(nn.Module):
             _exceptions.AssertFormula(f)
             self.graph.add_node(f)
             self.graph.add_edges_from(f.edge_list)
-            self.num_formulae = f.set_formula_number(self.num_formulae) + 1
+            if self.nodes.get(f.formula_number) is not f:
+                self.num_formulae = f.set_formula_number(self.num_formulae) + 1
         for node in self.graph.nodes:
             if node.structure in self.node_structures:
                 if node not in self.node_structures[node.structure]:
